@@ -179,8 +179,12 @@ func c13Input(a *ChildArgs, input, limit string) {
 		}
 		a.Rec.Count("rejecting_calls", 1)
 		var shapes []errShape
-		for _, e := range errs {
-			shapes = append(shapes, c13CheckErr(a, ep.Name, input, e, lexical, limit))
+		for i, e := range errs {
+			lim := limit
+			if i > 0 {
+				lim = "" // only the first error of a recovery run is the limit violation; later ones come from resynchronising inside the same text
+			}
+			shapes = append(shapes, c13CheckErr(a, ep.Name, input, e, lexical, lim))
 			var pe *parser.ParseError
 			if errors.As(e, &pe) {
 				if pe.Cause == nil || errors.Unwrap(pe) != pe.Cause {
@@ -274,6 +278,31 @@ func c13Child(a *ChildArgs) {
 			c13Input(a, "SELECT "+strings.Repeat("(", d)+"1"+strings.Repeat(")", d), "E2007")
 			c13Input(a, "SELECT "+strings.Repeat("f(", d)+"1"+strings.Repeat(")", d), "E2007")
 			c13Input(a, "SELECT "+strings.Repeat("CASE WHEN a THEN ", d)+"1"+strings.Repeat(" END", d), "E2007")
+		}
+		// the depth-limit error keeps its code wherever the over-deep expression stands: every expression-bearing clause,
+		// alone and inside the constructs that describe their sub-errors (statement after WITH, CTE body, CASE, BETWEEN)
+		deep := strings.Repeat("(", 160) + "1" + strings.Repeat(")", 160)
+		wrappers := append([]nestCtx{}, exprWrappers...)
+		wrappers = append(wrappers, nestCtx{"on-conflict-set", "INSERT INTO t VALUES (1) ON CONFLICT (a) DO UPDATE SET a = ", ""}, nestCtx{"insert-returning", "INSERT INTO t VALUES (1) RETURNING ", ""},
+			nestCtx{"update-returning", "UPDATE t SET a = 1 RETURNING ", ""}, nestCtx{"values-row-2", "INSERT INTO t VALUES (1, 2), (3, ", ")"}, nestCtx{"having", "SELECT a FROM t GROUP BY a HAVING ", ""},
+			nestCtx{"join-on", "SELECT a FROM t JOIN u ON ", ""}, nestCtx{"order-by", "SELECT a FROM t ORDER BY ", ""}, nestCtx{"limit", "SELECT a FROM t LIMIT ", ""})
+		inner := []nestCtx{{"plain", "", ""}, {"case-when", "CASE WHEN ", " THEN 1 END"}, {"between-hi", "1 BETWEEN 0 AND ", ""}, {"func-arg", "f(", ")"}, {"in-list", "1 IN (", ")"}}
+		outer := []nestCtx{{"plain", "", ""}, {"after-with", "WITH c AS (SELECT 1) ", ""}, {"cte-body", "WITH c AS (", ") SELECT * FROM c"}}
+		for _, w := range wrappers {
+			for _, in := range inner {
+				for _, o := range outer {
+					if o.Name != "plain" && strings.HasPrefix(w.Pre, "CREATE") {
+						continue
+					}
+					sql := o.Pre + w.Pre + in.Pre + deep + in.Suf + w.Suf + o.Suf
+					// only where the shallow form is accepted (the context exists in the surface)
+					shallow := o.Pre + w.Pre + in.Pre + "(1)" + in.Suf + w.Suf + o.Suf
+					if _, err := gosqlx.Parse(shallow); err != nil {
+						continue
+					}
+					c13Input(a, sql, "E2007")
+				}
+			}
 		}
 		big := "SELECT 1 " + strings.Repeat(" ", tokenizer.MaxInputSize)
 		c13Input(a, big, "E1006")
